@@ -36,7 +36,7 @@ SetTheta(k) == /\ Len(hist) < MaxDepth /\ params' = [params EXCEPT !.theta = k] 
 CallerMutates == /\ Len(hist) < MaxDepth /\ UNCHANGED <<params, stamp>>
                  /\ Log([op |-> "caller_mutates", arg |-> 0]) /\ Emitting
 \* the aperture is used with a bad-pixel mask (area_overlap / do_photometry with mask=...) and the caller edits, in place, a mask
-\* array returned by to_mask(): neither leaves anything behind in the aperture
+\* array returned by to_mask(), and the aperture is drawn with a non-zero origin: none of these leaves anything behind in the aperture
 UsedWithMask == /\ Len(hist) < MaxDepth /\ UNCHANGED <<params, stamp>>
                 /\ Log([op |-> "used_with_mask", arg |-> 0]) /\ Emitting
 Read(r) == /\ Len(hist) < MaxDepth /\ r \notin DOMAIN stamp
